@@ -48,6 +48,9 @@ func TestC10(t *testing.T) {
 	for _, fl := range Flavours {
 		for i := 0; i < n; i++ {
 			conf := BConf{TTL: ttls[e.Rng.Intn(len(ttls))], Jitter: jits[e.Rng.Intn(len(jits))], Name: "c"}
+			if e.Rng.Intn(5) == 0 {
+				conf.TTL = -1 // UnlimitedTTL is a class of its own: a fifth of the cases
+			}
 			nw := 1 + e.Rng.Intn(3)
 			seed := e.Rng.Int63()
 
@@ -87,6 +90,10 @@ func TestC10(t *testing.T) {
 					ht.Note(k)
 
 					ct := ctxs[e.Rng.Intn(len(ctxs))]
+					if e.Rng.Intn(10) == 0 {
+						ct = -1 // a context TTL that happens to equal the UnlimitedTTL sentinel is an ordinary (negative) TTL
+					}
+
 					c := ctx
 
 					switch pick := e.Rng.Intn(3); {
